@@ -2,7 +2,13 @@
 """Translator: dump the Python AST of the small pure helpers of curtsies, node by node,
 into terms of the PyMini syntax (coq/Spec/PyMini.v) -> coq/Gen/Pure.v (the loop-free helpers) and
 coq/Gen/PureFmt.v (the slicing algorithms of FmtStr: methods and properties with `for` loops, objects,
-local lists; proofs Proofs/PureTieFmt*.v, context Spec/PyEnvFmt.v).
+local lists; splice / append / setslice_with_length / setitem / __add__ / __radd__ with chained comparisons
+(ECmpChain), keyword arguments (ECallKw), method calls with several arguments (EMethN), a filtered generator
+expression (EGenIf), isinstance against a tuple of class names, assert with a message expression (SAssertMsg);
+proofs Proofs/PureTie*.v, context Spec/PyEnvFmt.v).  Beside the trees of PureFmt.v it dumps, from the live
+module, the names of the module's classes the functions mention (py_classes: checked to have no subclasses, no
+bases, no metaclass -- isinstance is decided by the class name of an object) and the parameter names of the
+callables that are called with keyword arguments (py_signatures).
 
 The translator decides nothing about meaning: one AST node becomes one constructor.
 The reference interpreter in Spec/PyMini.v gives the meaning, and Proofs/PureTie.v,
@@ -50,6 +56,12 @@ FUNCTIONS_FMT = [
     ("curtsies.formatstring", "FmtStr.divides", "py_FmtStr_divides"),
     ("curtsies.formatstring", "width_aware_slice", "py_width_aware_slice"),
     ("curtsies.formatstring", "FmtStr.width_aware_slice", "py_FmtStr_width_aware_slice"),
+    ("curtsies.formatstring", "FmtStr.splice", "py_FmtStr_splice"),
+    ("curtsies.formatstring", "FmtStr.__add__", "py_FmtStr_add"),
+    ("curtsies.formatstring", "FmtStr.__radd__", "py_FmtStr_radd"),
+    ("curtsies.formatstring", "FmtStr.append", "py_FmtStr_append"),
+    ("curtsies.formatstring", "FmtStr.setslice_with_length", "py_FmtStr_setslice_with_length"),
+    ("curtsies.formatstring", "FmtStr.setitem", "py_FmtStr_setitem"),
 ]
 FILES = [("Pure.v", FUNCTIONS, True), ("PureFmt.v", FUNCTIONS_FMT, False)]
 
@@ -65,6 +77,9 @@ BUILTINS = {"len", "ord", "abs", "bool", "int", "all", "any", "max", "min", "isi
 # module-level data dumped by gen/gen_tables.py from the same live module (coq/Gen/Tables.v)
 TABLE_GLOBALS = {"curtsies.events": {"CURTSIES_NAMES", "CURSES_NAMES", "KEYMAP_PREFIXES", "MAX_KEYPRESS_SIZE"}}
 STDLIB_MODULES = {"codecs"}
+# builtin constants that are NOT values of the subset: reading one is an error outcome of the interpreter (the name
+# is unbound there); the translator only checks that the module does not rebind them
+UNMODELLED_BUILTINS = {"NotImplemented"}
 # module-level names that are NOT translated: their meaning is a named oracle of Spec/PyEnvFmt.v.  The
 # translator only checks that the name is bound to what the oracle is about:
 #   "class"    a class defined in this module;      "function" a function defined in this module;
@@ -75,6 +90,12 @@ ORACLE_GLOBALS = {"curtsies.formatstring": {"Chunk": "class", "FmtStr": "class",
 
 class TieError(Exception):
     pass
+
+
+# names called with keyword arguments / classes of the module that are mentioned, in the functions translated so
+# far (of the file being written): their parameter names / their names are dumped beside the trees
+KW_CALLEES = set()
+CLASSES_SEEN = set()
 
 
 def bad(node, why):
@@ -98,8 +119,10 @@ def call_arg(e):
         if len(e.generators) != 1:
             bad(e, "generator expression with several `for`")
         g = e.generators[0]
-        if g.ifs or g.is_async or not isinstance(g.target, ast.Name):
+        if len(g.ifs) > 1 or g.is_async or not isinstance(g.target, ast.Name):
             bad(e, "generator expression outside the subset")
+        if g.ifs:                                                   # (elt for x in it if cond)
+            return "(EGenIf %s %s %s %s)" % (expr(e.elt), q(g.target.id), expr(g.iter), expr(g.ifs[0]))
         return "(EGenExp %s %s %s)" % (expr(e.elt), q(g.target.id), expr(g.iter))
     if isinstance(e, ast.Starred):
         bad(e, "starred argument")
@@ -133,11 +156,13 @@ def expr(e):
             return "(ENot %s)" % expr(e.operand)
         bad(e, "unary operator outside the subset")
     if isinstance(e, ast.Compare):
-        if len(e.ops) != 1:
-            bad(e, "comparison chain")
+        for o in e.ops:
+            if type(o) not in CMPOP:
+                bad(e, "comparison operator outside the subset")
+        if len(e.ops) != 1:                                         # a op1 b op2 c ...
+            return "(ECmpChain %s [%s])" % (expr(e.left), "; ".join(
+                "(%s, %s)" % (CMPOP[type(o)], expr(c)) for o, c in zip(e.ops, e.comparators)))
         op = type(e.ops[0])
-        if op not in CMPOP:
-            bad(e, "comparison operator outside the subset")
         return "(ECmp %s %s %s)" % (CMPOP[op], expr(e.left), expr(e.comparators[0]))
     if isinstance(e, ast.BoolOp):
         ctor = "EAnd" if isinstance(e.op, ast.And) else "EOr"
@@ -149,20 +174,29 @@ def expr(e):
     if isinstance(e, ast.Attribute):
         return "(EAttr %s %s)" % (expr(e.value), q(e.attr))
     if isinstance(e, ast.Call):
-        if e.keywords:
-            bad(e, "keyword arguments")
         n = len(e.args)
-        if isinstance(e.func, ast.Attribute):                      # obj.name(arg)
+        if e.keywords:                                             # f(a1, ..., an, k1=v1, ...)
+            if not isinstance(e.func, ast.Name) or e.func.id == "isinstance" \
+                    or any(k.arg is None for k in e.keywords) or any(isinstance(x, ast.Starred) for x in e.args):
+                bad(e, "keyword arguments outside the subset")
+            KW_CALLEES.add(e.func.id)
+            return "(ECallKw %s [%s] [%s])" % (q(e.func.id), "; ".join(call_arg(x) for x in e.args),
+                                              "; ".join("(%s, %s)" % (q(k.arg), call_arg(k.value)) for k in e.keywords))
+        if isinstance(e.func, ast.Attribute):                      # obj.name(arg) / obj.name(a1, ..., an)
+            if any(isinstance(x, ast.Starred) for x in e.args):
+                bad(e, "starred argument of a method call")
             if n != 1:
-                bad(e, "method call with %d arguments" % n)
+                return "(EMethN %s %s [%s])" % (expr(e.func.value), q(e.func.attr), "; ".join(call_arg(x) for x in e.args))
             return "(EMeth1 %s %s %s)" % (expr(e.func.value), q(e.func.attr), call_arg(e.args[0]))
         if not isinstance(e.func, ast.Name):
             bad(e, "call outside the subset")
         f = e.func.id
         if n == 1 and isinstance(e.args[0], ast.Starred):           # f(*a)
             return "(ECallStar %s %s)" % (q(f), call_arg(e.args[0].value))
-        if f == "isinstance" and (n != 2 or not isinstance(e.args[1], ast.Name)):
-            bad(e, "isinstance against something other than a class name")
+        if f == "isinstance" and (n != 2 or not (isinstance(e.args[1], ast.Name) or (
+                isinstance(e.args[1], ast.Tuple) and e.args[1].elts
+                and all(isinstance(x, ast.Name) for x in e.args[1].elts)))):
+            bad(e, "isinstance against something other than a class name or a tuple of class names")
         if n == 1:
             return "(ECall1 %s %s)" % (q(f), call_arg(e.args[0]))
         if n == 2:
@@ -249,7 +283,7 @@ def stmt(s, ind):
         return "SRaise %s" % (e.id if e.id in EXN else "OtherError")
     if isinstance(s, ast.Assert):
         if s.msg is not None and not message_ok(s.msg):
-            bad(s, "assert message outside the subset")
+            return "SAssertMsg %s %s" % (expr(s.test), expr(s.msg))     # the message is an expression of its own
         return "SAssert %s" % expr(s.test)
     if isinstance(s, ast.Try):
         if s.finalbody or len(s.handlers) != 1:
@@ -296,7 +330,7 @@ def check_free_names(modname, mod, fname, fd, enums):
     translated = {f for m, f, _ in FUNCTIONS + FUNCTIONS_FMT if m == modname and "." not in f}
     g = vars(mod)
     for n in sorted(free_names(fd)):
-        if n in BUILTINS or n in EXN:
+        if n in BUILTINS or n in EXN or n in UNMODELLED_BUILTINS:
             if n in g or not hasattr(builtins, n):
                 raise TieError("%s.%s: builtin %s is shadowed by the module" % (modname, fname, n))
             continue
@@ -312,6 +346,10 @@ def check_free_names(modname, mod, fname, fd, enums):
         if n in ORACLE_GLOBALS.get(modname, {}):
             kind = ORACLE_GLOBALS[modname][n]
             if kind == "class" and isinstance(v, type) and v.__module__ == modname and v.__name__ == n:
+                # isinstance(x, <this class>) is decided by the class NAME of the object: no subclasses
+                if v.__subclasses__() or v.__mro__ != (v, object) or type(v) is not type:
+                    raise TieError("%s.%s: class %s has subclasses / bases / a metaclass" % (modname, fname, n))
+                CLASSES_SEEN.add(n)
                 continue
             if kind == "function" and inspect.isfunction(v) and v.__module__ == modname and v.__name__ == n:
                 continue
@@ -339,6 +377,8 @@ def gen(functions=None, with_enums=True):
            "Local Open Scope string_scope.",
            ""]
     enums = {}
+    KW_CALLEES.clear()
+    CLASSES_SEEN.clear()
     for modname, fname, coqname in functions:
         try:
             out.append(gen_function(importlib, modname, fname, coqname, enums))
@@ -356,7 +396,45 @@ def gen(functions=None, with_enums=True):
         out.append("")
     elif enums:
         raise TieError("Enum classes are not expected in this file: %s" % sorted(enums))
+    if not with_enums:
+        out.append(signatures(functions))
     return "\n".join(out)
+
+
+def signatures(functions):
+    """the classes of the module the functions above mention, and the parameter names of what they call with
+    keyword arguments (a class: the parameters of __init__ after self), read off the live objects"""
+    import importlib
+    mods = {m for m, _, _ in functions}
+    if len(mods) != 1:
+        raise TieError("one module per file expected")
+    mod = importlib.import_module(mods.pop())
+    sigs = []
+    for n in sorted(KW_CALLEES):
+        v = vars(mod).get(n)
+        try:
+            target = v.__init__ if isinstance(v, type) else v
+            if not inspect.isfunction(target):
+                raise TypeError(n)
+            ps = list(inspect.signature(target).parameters.values())
+        except (TypeError, ValueError):
+            sigs.append("(* %s: no signature *)" % n)
+            continue
+        if isinstance(v, type):
+            ps = ps[1:]
+        names = []
+        for p_ in ps:
+            if p_.kind is not inspect.Parameter.POSITIONAL_OR_KEYWORD:
+                break                              # *args, keyword-only ...: what follows is not addressable by position
+            names.append(p_.name)
+        sigs.append("(%s, [%s])" % (q(n), "; ".join(q(x) for x in names)))
+    real = [x for x in sigs if not x.startswith("(*")]
+    return ("(* classes of the module mentioned by the functions above (no subclasses, no bases) *)\n"
+            "Definition py_classes : list string := [%s].\n\n"
+            "(* parameter names of the callables the functions above call with keyword arguments *)\n"
+            "Definition py_signatures : list (string * list string) :=\n  [%s].%s\n"
+            % ("; ".join(q(c) for c in sorted(CLASSES_SEEN)), "; ".join(real),
+               "".join("\n" + x for x in sigs if x.startswith("(*"))))
 
 
 FAILED = []
